@@ -101,6 +101,7 @@ func (i *bInst) Destroy() error {
 }
 
 type bPending struct {
+	rr      *remoteRunner // the runner whose Start() issued this call (set by the "start" action)
 	inst    *bInst
 	uuid    string
 	arrive  chan struct{}
@@ -711,11 +712,15 @@ func TestVerifC14bPool(t *testing.T) {
 					t.Fatalf("R2: StartContainer(%s,%s) chose %s: %s\nhistory:\n%s", it.Name, uuid, inst.id, strings.Join(bad, "; "), hist)
 				}
 				// the --detach call is now parked in the executor
+				wp.mtx.Lock()
+				startedRR := chosen.starting[uuid]
+				wp.mtx.Unlock()
 				waitFor("--detach to reach the executor", func() bool {
 					h.mu.Lock()
 					defer h.mu.Unlock()
 					for _, p := range h.pending {
-						if p.uuid == uuid && p.inst == inst {
+						if p.uuid == uuid && p.inst == inst && p.rr == nil {
+							p.rr = startedRR
 							return true
 						}
 					}
@@ -767,8 +772,8 @@ func TestVerifC14bPool(t *testing.T) {
 				var updatedBefore time.Time
 				if wkr != nil {
 					wp.mtx.Lock()
-					_, inStarting := wkr.starting[p.uuid]
-					_, inRunning := wkr.running[p.uuid]
+					inStarting := p.rr != nil && wkr.starting[p.uuid] == p.rr
+					inRunning := p.rr != nil && wkr.running[p.uuid] == p.rr
 					updatedBefore = wkr.updated
 					wp.mtx.Unlock()
 					moved = !inStarting
@@ -792,8 +797,7 @@ func TestVerifC14bPool(t *testing.T) {
 					waitFor("start bookkeeping", func() bool {
 						wp.mtx.Lock()
 						defer wp.mtx.Unlock()
-						_, inStarting := wkr.starting[p.uuid]
-						return !inStarting
+						return wkr.starting[p.uuid] != p.rr
 					})
 				} else if wkr != nil {
 					// A probe already took the runner out of wkr.starting.
